@@ -65,6 +65,30 @@ def forbidden_hits() -> List[str]:
     return hits
 
 
+# Extracted files used by a property through the model driver (in addition to what its theorem file imports)
+DRIVER_USES = {
+    "C01": ["Auth", "Charset"], "C02": ["Auth"], "C06": ["Params"], "C07": ["Charset"], "C08": ["Auth", "Control"], "C15": ["Charset"],
+    "C17": ["Control"], "C18": ["Control"], "C12": ["Stream"], "C04": ["Stream"], "C05": ["Results"],
+}
+
+
+def extracted_used_by(prop_id: str) -> set:
+    """names (without .lean) of the Extracted files a property depends on: transitive imports of its theorem file
+    plus the driver operations its check uses"""
+    seen: set = set()
+
+    def walk(mod):
+        p = os.path.join(LEAN, mod.replace(".", "/") + ".lean")
+        if mod in seen or not os.path.exists(p):
+            return
+        seen.add(mod)
+        for m in re.findall(r"^import\s+(\S+)", open(p).read(), flags=re.M):
+            walk(m)
+    walk(f"MimicProps.{prop_id}")
+    used = {m.split(".")[-1] for m in seen if m.startswith("Mimic.Extracted.")}
+    return used | set(DRIVER_USES.get(prop_id, []))
+
+
 def tie(prop_id: str, targets: Sequence[str]) -> Dict[str, Any]:
     """Regenerate Extracted/*.lean from /repo, build the property's modules, audit axioms.
     Returns dict(ok, extract_errors, changed, build_ok, build_log, theorems, axioms, bad_axioms, forbidden)."""
@@ -74,7 +98,10 @@ def tie(prop_id: str, targets: Sequence[str]) -> Dict[str, Any]:
     with Lock():
         changed, errors = extract.generate()
         res["changed"] = changed
-        res["extract_errors"] = errors
+        used = extracted_used_by(prop_id)
+        # an extraction that fails leaves the previous file in place: only the properties that use it lose their tie
+        res["extract_errors"] = [e for e in errors if e.split(".lean")[0] in used]
+        res["extract_errors_elsewhere"] = [e for e in errors if e.split(".lean")[0] not in used]
         t0 = time.time()
         p = subprocess.run(["lake", "build"] + list(targets) + ["mimic-driver"], cwd=LEAN, capture_output=True,
                            text=True, env=env_lean())
